@@ -205,7 +205,6 @@ int main(int argc, char **argv)
 		if (vx_now() - t_scn > 4.0) vx_note("slow scenario %s: %.1f s, %llu states", S.name, vx_now() - t_scn, (unsigned long long)st.states);
 		vx_count("scenarios", 1);
 		vx_count("states", st.states); vx_count("transitions", st.steps + st.interrupts_injected); vx_count("traces", st.executions);
-		vx_count("distinct", st.states);
 		vx_count("executions", st.executions); vx_count("executions_completed", st.completed); vx_count("executions_pruned_at_visited_state", st.pruned);
 		vx_count("executions_ending_in_allowed_deadlock", st.deadlocks);
 		vx_count("atomic_operations_executed", st.atomic_ops); vx_count("plain_accesses_checked", st.plain_accesses);
